@@ -86,6 +86,8 @@ func c12(w *core.World, r *core.Report) {
 
 	r.Rule("R12.5", "the start offset the decoder offsets are added to is the position the cache reader was opened at (shared with R07.6)", 3)
 	ruleReplayStartOffset(w, r)
+	r.Rule("R12.10", "an array is read to its announced length: the element loop is bounded by the header's count itself", 1)
+	ruleArrayReadsAnnouncedCount(w, r)
 }
 
 func ruleReadOffsetPairing(w *core.World, r *core.Report, f *ssa.Function) {
